@@ -18,6 +18,9 @@ import (
 	"github.com/Eyevinn/mp4ff/mp4"
 )
 
+// maxInitialBufferSize is the largest upload buffer that is allocated on the word of a Content-Length header.
+const maxInitialBufferSize = 16 << 20
+
 // Receiver is a receiver of CMAF segments.
 // There may be parallel full streams with their own set of tracks (streams).
 type Receiver struct {
@@ -275,8 +278,10 @@ func (r *Receiver) SegmentHandlerFunc(w http.ResponseWriter, req *http.Request) 
 	}
 
 	log.Debug("Receiving file", "url", path, "contentLength", contentLength, "totSize", rsd.totSize)
+	// The Content-Length is the sender's claim. Use it as initial buffer size only when it is reasonable,
+	// since the buffer grows with the data that actually arrives.
 	var buf []byte
-	if contentLength > 0 {
+	if contentLength > 0 && contentLength <= maxInitialBufferSize {
 		buf = make([]byte, contentLength)
 	} else {
 		buf = make([]byte, 1024)
